@@ -192,6 +192,28 @@ class TeeSys:
             self.cs[c] = "closed"
         self._flush()
 
+    def busy(self):
+        return [c for c in sorted(self.cs) if self.cs[c] in ("lockwait", "insrc", "exiting", "foreign")]
+
+    def closeall_busy(self):
+        """Tee.aclose() while a child is being advanced: Python refuses to close that child."""
+        b = self.busy()[0]
+        before = [c for c in sorted(self.cs) if c < b and self.cs[c] in ("unstarted", "idle")]
+        self.current = 0
+        t = Task(self.tee.aclose(), self.acct)
+        r = t.step()
+        if r[0] == "token":          # the handle waits for something: nothing of the user's is there to wait for
+            self.ev(e="error", c=0, what="Tee.aclose:suspends-while-a-child-is-busy")
+            t.throw(Cancelled("stop"))
+        elif not (r[0] == "raised" and isinstance(r[1], RuntimeError)):
+            self.ev(e="error", c=0, what="Tee.aclose-while-busy:" + (type(r[1]).__name__ if r[0] == "raised" else "returns"))
+        for c in before:
+            # the sweep of the handle never happens (the RuntimeError comes first): a never-advanced child closed
+            # on the way is in the position of one closed on its own (named deviation UnstartedCloseLeaks)
+            self.ev(e="closed", c=c, started=self.ever_started[c])
+            self.cs[c] = "closed"
+        self._flush()
+
     def apply(self, a, c):
         self.current = c
         if a == "anext":
@@ -382,6 +404,19 @@ def replay_path(args):
     drift = None
     for j, e in enumerate(path):
         a, c = e["a"][0], e["a"][1]
+        if a == "closeallbusy":
+            if not sysm.busy() or sysm.busy()[0] != c:
+                drift = {"step": j, "label": [a, c], "why": "not enabled in the implementation", "observed": sysm.project()}
+                break
+            sysm.closeall_busy()
+            got = sysm.project()
+            exp = norm_model(e["t"])
+            bad = [k for k in exp if got.get(k) != exp[k]]
+            if bad:
+                drift = {"step": j, "label": [a, c], "fields": bad, "expected": {k: exp[k] for k in bad},
+                         "observed": {k: got.get(k) for k in bad}}
+                break
+            continue
         if a == "closeall":
             if not sysm.can_closeall():
                 drift = {"step": j, "label": [a, c], "why": "not enabled in the implementation", "observed": sysm.project()}
@@ -439,6 +474,10 @@ def random_run(args):
         if sysm.can_closeall() and rnd.random() < 0.03:
             sysm.closeall()
             steps.append(["closeall", 0])
+            continue
+        if sysm.busy() and rnd.random() < 0.02:
+            steps.append(["closeallbusy", sysm.busy()[0]])
+            sysm.closeall_busy()
             continue
         a, c = rnd.choice(opts)
         if a == "tick" and not failed and rnd.random() < 0.04:
@@ -543,7 +582,7 @@ def check(prop, tier, seed, into=None):
         "edge-cover conformance is sound only for the projected state (cs, recv, source position, busy set, close count, lock holder, and tee._buffers when present)",
     ]
     vac = dict(label_counts)
-    missing = [a for a in ["anext", "grant", "tick", "close", "cancel", "closeall", "fail"] if not vac.get(a)]
+    missing = [a for a in ["anext", "grant", "tick", "close", "cancel", "closeall", "closeallbusy", "fail"] if not vac.get(a)]
     if missing:
         raise MachineryError(f"vacuity guard: actions never taken in the explored graphs: {missing}")
     return v.finish({
